@@ -1,9 +1,9 @@
 SPECIFICATION Spec
 CONSTANTS
-  TopTypes = {"int", "ptr", "AI3", "AIX", "AC4", "ACX", "APX", "MC", "B", "N", "A", "U", "SA", "SC", "AS"}
-  MaxTok = 8
+  TopTypes = {"P", "N", "SA", "U"}
+  MaxTok = 6
   MaxIdx = 2
-  AllowAgg = FALSE
+  AllowAgg = TRUE
   DevOn = {"AnonNoMem", "EmptyBraceNoFocus", "BraceNoReset", "UnionCover", "StrPatchOOB", "AutoBackZero", "ReplaceEndOnly"}
   Salt = 0
   EmitCases = TRUE
